@@ -160,14 +160,37 @@ impl Out {
     }
 }
 
+thread_local! {
+    static LAST_PANIC: std::cell::RefCell<Option<String>> = const { std::cell::RefCell::new(None) };
+}
+
 /// Runs every case through `f` (fresh per case), catching panics of the code under test so that
 /// one panicking case is reported as an observation (`panic`) instead of killing the run.
 pub fn run_cases<F>(mut f: F)
 where
     F: FnMut(&Case, &mut Vec<String>),
 {
-    // silence the default panic message: panics are reported through the trace
-    std::panic::set_hook(Box::new(|_| {}));
+    // silence the default panic message: panics are reported through the trace (`panic`, plus a
+    // comment line `# panicmsg <slug>` that the orchestrator uses to tell panics apart)
+    std::panic::set_hook(Box::new(|info| {
+        let msg = if let Some(s) = info.payload().downcast_ref::<&str>() {
+            s.to_string()
+        } else if let Some(s) = info.payload().downcast_ref::<String>() {
+            s.clone()
+        } else {
+            "unknown".to_string()
+        };
+        let slug: String = msg
+            .chars()
+            .map(|c| if c.is_ascii_alphanumeric() { c.to_ascii_lowercase() } else { '-' })
+            .collect::<String>()
+            .split('-')
+            .filter(|w| !w.is_empty() && !w.chars().all(|c| c.is_ascii_digit()))
+            .take(6)
+            .collect::<Vec<_>>()
+            .join("-");
+        LAST_PANIC.with(|p| *p.borrow_mut() = Some(slug));
+    }));
     let cases = read_cases();
     let mut out = Out::new();
     for case in &cases {
@@ -180,6 +203,9 @@ where
         if res.is_err() {
             // the op that panicked has already had its `@` printed by the case runner
             out.line("panic");
+            if let Some(slug) = LAST_PANIC.with(|p| p.borrow_mut().take()) {
+                out.line(format!("# panicmsg {slug}"));
+            }
         }
     }
     out.flush();
